@@ -1,18 +1,27 @@
 import Log4rsModel.Base.Str
 import Log4rsModel.Base.Outcome
 /-
-Model of `src/append/mod.rs::env_util::expand_env_vars` (C19), function by function, as the code is.
+Model of `src/append/mod.rs::env_util::expand_env_vars` (C19), function by function, as the code is
+(single-pass expansion, /repo 3840597):
 
-    let mut outpath = path;  let path = outpath.clone();
+    let outpath = path;  let path = outpath.clone();
+    let mut expanded = String::new();  let mut copied = 0;
     for (match_start, _) in path.match_indices("$ENV{") {
+        if match_start < copied { continue; }                       -- inside a replaced reference
         let env_name_start = match_start + 5;
         let (_, tail) = path.split_at(env_name_start);              -- panics off a char boundary
         first char: is_env_var_start, following: is_env_var_part*, then '}'   (else: next match)
         if let Ok(env_value) = std::env::var(&env_name) {
             let match_end = env_name_start + env_name.len() + 1;    -- UTF-8 length of the name
-            outpath = outpath.replace(&path[match_start..match_end], &env_value);   -- REPLACE-ALL
+            expanded.push_str(&path[copied..match_start]);          -- panics off a char boundary
+            expanded.push_str(&env_value);  copied = match_end;
         } }
-    outpath
+    if copied == 0 { return outpath }
+    expanded.push_str(&path[copied..]);  expanded
+
+`expand` is this code. `expand_unfixed` is the historical code (before the fix of finding F7):
+`outpath = outpath.replace(&path[match_start..match_end], &env_value)` — a replace-ALL on the
+accumulating output; it is kept with its witness theorems.
 
 Text is `List Char`; every offset the code computes is a *byte* offset, so offsets here are byte
 offsets as well (`Char.utf8Size`), and `split_at` / `&path[a..b]` are partial (`none` = the Rust
@@ -23,8 +32,8 @@ panic "byte index is not a char boundary / out of range"). The model returns an 
 The environment is an association list `name ↦ value` (first entry wins; the harness installs
 exactly these variables and removes every other one).
 
-`expandFixed` is the model of the proposed single-pass patch (the code's own comment: "Could be done
-more efficiently by building `outpath` as we go when processing `path`").
+The call sites (builders, configuration deserializers, `rotate()`) are modelled at the end:
+which text each of them hands to `expand_env_vars`, and how often.
 -/
 namespace Log4rs.EnvExpand
 open Log4rs Log4rs.Str
@@ -134,8 +143,8 @@ def lookup (env : Env) (name : Text) : Option Text :=
   | [] => none
   | (k, v) :: rest => if k = name then some v else lookup rest name
 
-/-- body of the `for` loop for one match, current code -/
-def stepAt (alnum : Char → Bool) (env : Env) (path out : Text) (matchStart : Nat) : Outcome Unit Text :=
+/-- body of the `for` loop for one match, historical code (before the F7 fix) -/
+def stepUnfixed (alnum : Char → Bool) (env : Env) (path out : Text) (matchStart : Nat) : Outcome Unit Text :=
   let nameStart := matchStart + ENV_PREFIX_LEN
   match splitAtByte nameStart path with
   | none => .panic "split_at: not a char boundary"
@@ -151,24 +160,25 @@ def stepAt (alnum : Char → Bool) (env : Env) (path out : Text) (matchStart : N
         | none => .panic "slice: not a char boundary"
         | some lit => .ok (replaceAll lit value out)
 
-/-- `expand_env_vars`, current code (replace-all on the accumulating output, in order of appearance) -/
-def expand (alnum : Char → Bool) (env : Env) (path : Text) : Outcome Unit Text :=
+/-- `expand_env_vars`, historical code: replace-all on the accumulating output, in order of
+appearance (finding F7) -/
+def expand_unfixed (alnum : Char → Bool) (env : Env) (path : Text) : Outcome Unit Text :=
   (matchIndices envPrefix path).foldl
     (fun acc m => match acc with
-      | .ok out => stepAt alnum env path out m
+      | .ok out => stepUnfixed alnum env path out m
       | other => other)
     (.ok path)
 
-/-! ### The proposed patch: build the output in one pass while scanning -/
+/-! ### The code: the output is built in one pass while scanning -/
 
-structure FixState where
+structure ScanState where
   out : Text
   /-- everything before this byte offset of `path` has been emitted -/
   copied : Nat
   deriving Repr, DecidableEq
 
-def stepFixed (alnum : Char → Bool) (env : Env) (path : Text) (st : FixState) (matchStart : Nat) :
-    Outcome Unit FixState :=
+def step (alnum : Char → Bool) (env : Env) (path : Text) (st : ScanState) (matchStart : Nat) :
+    Outcome Unit ScanState :=
   if matchStart < st.copied then .ok st else
   let nameStart := matchStart + ENV_PREFIX_LEN
   match splitAtByte nameStart path with
@@ -185,17 +195,18 @@ def stepFixed (alnum : Char → Bool) (env : Env) (path : Text) (st : FixState) 
         | none => .panic "slice: not a char boundary"
         | some head => .ok { out := st.out ++ head ++ value, copied := matchEnd }
 
-/-- the `for` loop of the patched code -/
-def scanFixed (alnum : Char → Bool) (env : Env) (path : Text) : Outcome Unit FixState :=
+/-- the `for` loop -/
+def scan (alnum : Char → Bool) (env : Env) (path : Text) : Outcome Unit ScanState :=
   (matchIndices envPrefix path).foldl
     (fun acc m => match acc with
-      | .ok st => stepFixed alnum env path st m
+      | .ok st => step alnum env path st m
       | other => other)
     (.ok { out := [], copied := 0 })
 
-/-- patched `expand_env_vars`: after the loop, `expanded.push_str(&path[copied..])` -/
-def expandFixed (alnum : Char → Bool) (env : Env) (path : Text) : Outcome Unit Text :=
-  match scanFixed alnum env path with
+/-- `expand_env_vars`: the loop, then `expanded.push_str(&path[copied..])` (for `copied = 0` the
+early `return outpath` yields the same text) -/
+def expand (alnum : Char → Bool) (env : Env) (path : Text) : Outcome Unit Text :=
+  match scan alnum env path with
   | .ok st =>
     match sliceFrom st.copied path with
     | some t => .ok (st.out ++ t)
@@ -203,17 +214,60 @@ def expandFixed (alnum : Char → Bool) (env : Env) (path : Text) : Outcome Unit
   | .err e => .err e
   | .panic w => .panic w
 
-/-! ### Call sites -/
+/-! ### Call sites
 
-/-- `FileAppenderBuilder::build(path)` / `RollingFileAppenderBuilder::build(path, _)`:
-the file is opened at `expand_env_vars(path)`. -/
-def appenderPath (alnum : Char → Bool) (env : Env) (fixed : Bool) (path : Text) : Outcome Unit Text :=
-  if fixed then expandFixed alnum env path else expand alnum env path
+Each function returns the text of the location the call site opens / archives at, for the text it
+is *given* (builder argument or configured scalar). -/
 
-/-- `rotate()`: `expand_env_vars(pattern.replace("{}", &i.to_string()))` — the index is substituted
-*before* the expansion. -/
-def archivePath (alnum : Char → Bool) (env : Env) (fixed : Bool) (pattern : Text) (i : Nat) :
-    Outcome Unit Text :=
-  appenderPath alnum env fixed (replaceAll ['{', '}'] (decimal i) pattern)
+/-- `FileAppenderBuilder::build(path)`: `let path = expand_env_vars(path_cow)`, the file is opened there -/
+def fileBuild (alnum : Char → Bool) (env : Env) (path : Text) : Outcome Unit Text :=
+  expand alnum env path
+
+/-- `FileAppenderDeserializer::deserialize`: `appender.build(&config.path)` — the configured text
+reaches `build` as written -/
+def fileDeserialize (alnum : Char → Bool) (env : Env) (configured : Text) : Outcome Unit Text :=
+  fileBuild alnum env configured
+
+/-- `RollingFileAppenderBuilder::build(path, policy)`: `expand_env_vars(path.to_string_lossy())` -/
+def rollingBuild (alnum : Char → Bool) (env : Env) (path : Text) : Outcome Unit Text :=
+  expand alnum env path
+
+/-- `RollingFileAppenderDeserializer::deserialize`: `builder.build(config.path, policy)` -/
+def rollingDeserialize (alnum : Char → Bool) (env : Env) (configured : Text) : Outcome Unit Text :=
+  rollingBuild alnum env configured
+
+/-- `FixedWindowRollerBuilder::build(pattern, count)` keeps `pattern.to_owned()` -/
+def rollerBuild (pattern : Text) : Text := pattern
+
+/-- `FixedWindowRollerDeserializer::deserialize`: `builder.build(&config.pattern, config.count)` -/
+def rollerDeserialize (configured : Text) : Text := rollerBuild configured
+
+/-- the text `rotate()` expands for slot `i`: `pattern.replace("{}", &i.to_string())` — the index is
+substituted *before* the expansion -/
+def slotText (stored : Text) (i : Nat) : Text := replaceAll ['{', '}'] (decimal i) stored
+
+/-- `rotate()`: archive of slot `i` = `expand_env_vars(pattern.replace("{}", &i.to_string()))` -/
+def rollerSlot (alnum : Char → Bool) (env : Env) (stored : Text) (i : Nat) : Outcome Unit Text :=
+  expand alnum env (slotText stored i)
+
+inductive CallSite where
+  | fileBuilder | fileConfig | rollingBuilder | rollingConfig
+  | rollerBuilder (slot : Nat) | rollerConfig (slot : Nat)
+  deriving Repr, DecidableEq
+
+/-- the text a call site submits to the expansion, for the text it was given -/
+def CallSite.submitted : CallSite → Text → Text
+  | .rollerBuilder i, t => slotText t i
+  | .rollerConfig i, t => slotText t i
+  | _, t => t
+
+/-- where the call site puts its file -/
+def location (alnum : Char → Bool) (env : Env) : CallSite → Text → Outcome Unit Text
+  | .fileBuilder, t => fileBuild alnum env t
+  | .fileConfig, t => fileDeserialize alnum env t
+  | .rollingBuilder, t => rollingBuild alnum env t
+  | .rollingConfig, t => rollingDeserialize alnum env t
+  | .rollerBuilder i, t => rollerSlot alnum env (rollerBuild t) i
+  | .rollerConfig i, t => rollerSlot alnum env (rollerDeserialize t) i
 
 end Log4rs.EnvExpand
